@@ -105,6 +105,11 @@ def branch(blk, along):
                         locals_[v["name"]] = nat.tr(v["inner"][-1])
         if len(fors) != 1:
             raise Unsupported("loop nest of KickMap::apply")
+        # nothing but declarations, the next loop and (innermost level) the store may stand at a level of the nest
+        extra = [s["kind"] for s in stmts if s["kind"] not in ("DeclStmt", "ForStmt")
+                 and not (s["kind"] == "BinaryOperator" and s.get("opcode") == "=" and "data_out" in refs(s["inner"][0]))]
+        if extra:
+            raise Unsupported("additional statements in the loop nest of KickMap::apply: %r" % extra)
         f = fors[0]
         var = strip(f["inner"][0])["inner"][0]["name"]
         bound = nat.tr(strip(f["inner"][2])["inner"][1])
@@ -118,6 +123,8 @@ def branch(blk, along):
             write = nat.tr(subscript_of(outs[0]["inner"][0], "data_out"))
             body = f["inner"][-1]
             bst = [strip(s) for s in body["inner"]]
+            if sorted(s["kind"] for s in bst) != ["DeclStmt", "DeclStmt", "IfStmt"]:
+                raise Unsupported("body of the j loop of KickMap::apply: %r" % [s["kind"] for s in bst])
             hdecl = [v for s in bst if s["kind"] == "DeclStmt" for v in s["inner"] if v["name"] == "h"]
             if len(hdecl) != 1:
                 raise Unsupported("hi h = _hinfo[...]")
